@@ -9,8 +9,8 @@
        evaluation over a field (integer powers only; transcendental nodes are evaluated over R in
        Calculus.v);
    (4) index bookkeeping of Primitive.derivative / second_derivative (primitives.py:18-53, 89-155);
-   (5) the pair terms and gradient coefficients of the IDPP (neb/idpp.py:43-118) and of the
-       bonded + repulsive force field (conformers/cconf_gen.pyx:10-83, ext/src/potentials.cpp
+   (5) the pair terms and gradient coefficients of the IDPP (neb/idpp.py:39-115) and of the
+       bonded + repulsive force field (conformers/cconf_gen.pyx:9-81, ext/src/potentials.cpp
        RBPotential) as functions of the pair distance r. *)
 From Coq Require Import Arith ZArith Lia List Bool.
 From AV.lib Require Import Sums.
@@ -167,18 +167,19 @@ Definition assemble2 (syms : list nat) (r : hd) : nat -> nat -> F :=
              end.
 
 (* ---------- (5) pair potentials as functions of the pair distance ---------- *)
-(* idpp.py:62  w (r_k - r)^2 with w = r^-4 (idpp.py:170); one unordered pair contributes once
+(* idpp.py:60  w (r_k - r)^2 with w = r^-4 (idpp.py:169); one unordered pair contributes once
    (0.5 * sum over ordered pairs) *)
 Definition idpp_term (c r : F) : F := (c - r) * (c - r) / fpow r 4.
 (* idpp.py:92  a = -2 (2 (r_k - r)^2 r^-6 + w (r_k - r) r^-1);  grad_i += a_ij (x_i - x_j) *)
 Definition idpp_coef (c r : F) : F :=
   - ((1 + 1) * ((1 + 1) * ((c - r) * (c - r)) / fpow r 6 + (1 / fpow r 4) * (c - r) / r)).
 
-(* cconf_gen.pyx:33-39 / potentials.cpp:246-255: c / d^e + k (d - d0)^2 (k = 0: not bonded) *)
+(* cconf_gen.pyx:32-38 / potentials.cpp:251-276 (RBPotential::set_energy): c / d^e + k (d - d0)^2 (k = 0: not bonded) *)
 Definition ff_term (e : nat) (c k d0 d : F) : F := c / fpow d e + k * ((d - d0) * (d - d0)).
-(* cconf_gen.pyx:63-72 (and the final sign flip, line 80):
+(* cconf_gen.pyx:64-79 (and the final sign flip, line 81):
      dV/dx_i = [ -e c / d^(e+2) + 2 k (1 - d0/d) ] (x_i - x_j)
-   potentials.cpp:300-320 uses the same two factors. *)
+   potentials.cpp:299-330 (RBPotential::set_energy_and_grad) has the same two factors; it is tied to this
+   definition only by the harness stream cpp-rb (mirror + trajectory), not by a translator. *)
 Definition ff_coef (e : nat) (c k d0 d : F) : F :=
   - (of_nat e * c / fpow d (e + 2)) + (1 + 1) * k * (1 - d0 / d).
 
